@@ -95,11 +95,15 @@ pub mod eng {
 		kani::assume(false);
 		loop {}
 	}
+	pub fn on_thread(_t: u32, _f: fn()) {
+		// no second thread under Kani
+	}
 }
 
 #[cfg(verif_mir)]
 pub mod eng {
 	extern "Rust" {
+		fn verif_on_thread(t: u32, f: fn());
 		fn verif_any_u8(tag: u32) -> u8;
 		fn verif_assume(c: bool);
 		fn verif_check(c: bool, code: u32);
@@ -124,6 +128,10 @@ pub mod eng {
 	}
 	pub fn inject_panic() -> ! {
 		unsafe { verif_panic() }
+	}
+	/// runs f to completion on another modelled thread (own thread-locals)
+	pub fn on_thread(t: u32, f: fn()) {
+		unsafe { verif_on_thread(t, f) }
 	}
 }
 
@@ -189,6 +197,13 @@ pub mod eng {
 	pub fn inject_panic() -> ! {
 		// resume_unwind skips the panic hook
 		std::panic::resume_unwind(Box::new("verif injected panic"))
+	}
+	/// runs f to completion on a real second thread
+	pub fn on_thread(_t: u32, f: fn()) {
+		let r = std::thread::spawn(f).join();
+		if r.is_err() {
+			println!("EV 998 0 0");
+		}
 	}
 }
 
